@@ -174,3 +174,50 @@ def samples_of(res, n=3):
     for pid, (p, case) in list(res.cases.items())[:n]:
         out.append({"id": pid, "c_text": p["text"], "inputs": case["nin"], "family": case["fam"]})
     return out
+
+
+# ----------------------------------------------------------------------------------------------
+# generated sub-routines (C03 argument/return contexts, C06, C08)
+
+def sub_to_c(s):
+    """generated sub-routine record [name, ret, void, params[{n,t}], body] -> registration arguments"""
+    from .front import cast as _c
+    return {
+        "name": s["name"],
+        "ret_c": "void" if s["void"] else _c.ctype(s["ret"]),
+        "params_c": ["%s %s" % (_c.ctype(p["t"]), p["n"]) for p in s["params"]],
+        "body_text": _c.program_text(s["body"]),
+    }
+
+
+def prepare_subs(gen_subs, with_bundled=True):
+    """-> (il_subs, c_subs, reg) : observed IL bodies and C sources of bundled + generated sub-routines;
+    reg = registration steps to attach to every program"""
+    from . import corpus_tv, impl as _impl
+    from .front import emitted as _em
+    reg = [sub_to_c(s) for s in gen_subs]
+    il_subs, c_subs = {}, {}
+    steps = [{"op": "addsub", "inst": 0, "name": r["name"], "ret": r["ret_c"], "params": r["params_c"], "body": r["body_text"]} for r in reg]
+    bundled = {}
+    if with_bundled:
+        from . import corpus as _corpus
+        bundled = _corpus.load_sub_routines()
+        steps += [{"op": "subdef", "inst": 0, "name": n} for n in bundled]
+    res = _impl.run_jobs([{"id": "subs", "steps": steps}])["subs"]["res"]
+    names = [r["name"] for r in reg] + list(bundled)
+    defs = {}
+    errors = {}
+    for n, r in zip(names, res):
+        if not r.get("ok"):
+            errors[n] = r
+        else:
+            defs[n] = r
+    tab, evs, errs = corpus_tv.il_subs_table(defs)
+    errors.update(errs)
+    for s in gen_subs:
+        c_subs[s["name"]] = {"params": [{"n": p["n"], "t": p["t"], "kind": "val"} for p in s["params"]],
+                             "ret": s["ret"], "void": s["void"], "body": s["body"]}
+    for n, r in bundled.items():
+        cs = corpus_tv.c_sub(n, r)
+        c_subs[n] = {k: v for k, v in cs.items() if k != "kind"}
+    return tab, c_subs, reg, errors, evs
